@@ -22,7 +22,7 @@ try:
     mods = a.modules.split(",") if a.modules else sorted({h["module"] for h in hs})
     run_kani.inject(wc, t, mods)
     t0 = time.time()
-    res = run_kani.run_harnesses(wc, hs, workcopy.CACHE + "/dev/kani", solver_cli=a.solver, tag="dev")
+    res = run_kani.run_grouped(wc, hs, workcopy.CACHE + "/dev/kani") if not a.solver else run_kani.run_harnesses(wc, hs, workcopy.CACHE + "/dev/kani", solver_cli=a.solver, tag="dev")
     for k, v in res.items():
         print("==", v["name"], v["status"], "checks", v.get("n_checks"), "time", v.get("time_s"), v.get("reason", ""))
         for f in v.get("failed", []):
